@@ -201,6 +201,16 @@ func (c *Checked) Step(i int) {
 
 	// ---- advance the model by what dig accepted
 	c.advance(i, op, res)
+	// a registration issued by the invoked function's body counts as a Provide
+	// issued right after the Invoke: same acceptance oracle, same bookkeeping
+	for _, np := range c.R.W.NestedProv {
+		if np.Op == i {
+			c.probe("provide_inside_invoke")
+			nres := &OpResult{Op: i, Verdict: verdictOf(np.Facts), Facts: np.Facts}
+			c.advance(i, Op{Kind: OpProvide, Scope: np.Scope, Fn: np.Fn}, nres)
+			c.checkErrorFacts(i, Op{Kind: OpProvide, Scope: np.Scope, Fn: np.Fn}, nres, nil)
+		}
+	}
 }
 
 // afterFault adds C07 to the properties a violation counts against when an
@@ -401,7 +411,7 @@ func (c *Checked) checkLogRules(i int, op Op, res *OpResult, evs []Event) {
 				inCB[e.Fn] = true
 			}
 		case EvNested:
-			if e.Exec != -2 {
+			if e.Exec != -2 && e.Exec < 100 {
 				delete(inCB, e.Fn)
 			}
 		case EvEnter:
@@ -501,7 +511,7 @@ func (c *Checked) checkLogRules(i int, op Op, res *OpResult, evs []Event) {
 	// closure of this Invoke still contains the failed function and no
 	// decorator loop is involved.)
 	for _, e := range evs {
-		if e.Kind == EvNested {
+		if e.Kind == EvNested && e.Exec < 100 {
 			c.probe("reentrant_demand")
 			if e.Exec == -2 {
 				// satisfied without re-entering the constructor (e.g. by a
